@@ -24,7 +24,7 @@ namespace Spec.Serpent
 /-- the number whose bit `k` (k < n) is `f k` -/
 def ofBitFn : Nat → (Nat → Bool) → Nat
   | 0, _ => 0
-  | n + 1, f => ofBitFn n f + (if f n then 2 ^ n else 0)
+  | n + 1, f => ofBitFn n f ||| (if f n then 2 ^ n else 0)
 
 def rotl (x n : Nat) : Nat := ((x <<< n) ||| (x >>> (32 - n))) % 2 ^ 32
 def rotr (x n : Nat) : Nat := ((x >>> n) ||| (x <<< (32 - n))) % 2 ^ 32
@@ -138,7 +138,7 @@ def decState (ks : List State) (c : State) : State :=
 /-- the four words of a 128-bit number -/
 def stateOfNat (x : Nat) : State :=
   ⟨x % 2 ^ 32, (x >>> 32) % 2 ^ 32, (x >>> 64) % 2 ^ 32, (x >>> 96) % 2 ^ 32⟩
-def natOfState (s : State) : Nat := s.x0 + 2 ^ 32 * s.x1 + 2 ^ 64 * s.x2 + 2 ^ 96 * s.x3
+def natOfState (s : State) : Nat := s.x0 ||| (s.x1 <<< 32) ||| (s.x2 <<< 64) ||| (s.x3 <<< 96)
 
 /-- encryption of the 128-bit number `P` under the `klen`-bit key `K` -/
 def encNat (klen K P : Nat) : Nat := natOfState (encState (roundKeys klen K) (stateOfNat P))
